@@ -458,6 +458,41 @@ class Inliner:
             if not any_change:
                 break
         self._drop_dead_helpers()
+        if self.stats:
+            # `x = x` left by a helper that returned its local under the caller's name
+            for tree in self.modules.values():
+                for n in ast.walk(tree):
+                    for fld in ('body', 'orelse', 'finalbody'):
+                        blk = getattr(n, fld, None)
+                        if not isinstance(blk, list):
+                            continue
+                        for s in blk:
+                            # `a, b = a, b` / `a, b = a, E`: the identical pairs go
+                            if isinstance(s, ast.Assign) and len(s.targets) == 1 and \
+                                    isinstance(s.targets[0], ast.Tuple) and \
+                                    isinstance(s.value, ast.Tuple) and \
+                                    len(s.targets[0].elts) == len(s.value.elts) and \
+                                    all(isinstance(t, ast.Name) for t in s.targets[0].elts):
+                                pairs = [(t, v) for t, v in zip(s.targets[0].elts, s.value.elts)
+                                         if not (isinstance(v, ast.Name) and v.id == t.id)]
+                                names = {t.id for t in s.targets[0].elts}
+                                if len(pairs) < len(s.value.elts) and not any(
+                                        isinstance(x, ast.Name) and x.id in names
+                                        for _, v in pairs for x in ast.walk(v)):
+                                    if not pairs:
+                                        t0 = s.targets[0].elts[0]
+                                        s.targets, s.value = [t0], ast.Name(id=t0.id, ctx=ast.Load())
+                                    elif len(pairs) == 1:
+                                        s.targets, s.value = [pairs[0][0]], pairs[0][1]
+                                    else:
+                                        s.targets[0].elts = [t for t, _ in pairs]
+                                        s.value.elts = [v for _, v in pairs]
+                        keep = [s for s in blk if not (
+                            isinstance(s, ast.Assign) and len(s.targets) == 1 and
+                            isinstance(s.targets[0], ast.Name) and isinstance(s.value, ast.Name)
+                            and s.value.id == s.targets[0].id)]
+                        if len(keep) != len(blk):
+                            blk[:] = keep or [ast.copy_location(ast.Pass(), blk[0])]
         for tree in self.modules.values():
             ast.fix_missing_locations(tree)
         return self.stats
